@@ -16,6 +16,7 @@ def gen_cases(tier, seed):
         p = gen_dl.gen_strat_program(rng)
         inputs = [gen_dl.gen_input(rng, p["rels"], style=rng.choice(["small", "mixed", "dense", "sparse_chain", "some_empty", "some_empty"]))[0] for _ in range(ninp)]
         # one more input: an aggregated / negated relation completely empty, everything else as in the first input
+        inputs += gen_dl.agg_join_inputs(rng, p)
         ag = gen_dl.aggregated_rels(p)
         for a in ag[:3]:
             emptied = dict(inputs[0])
